@@ -26,6 +26,7 @@ type Failure struct {
 
 // Report is what a harness sub-command hands back to ./check.
 type Report struct {
+	AutoPath    string         `json:"-"` // where Fail writes the report early (see Fail)
 	Property    string         `json:"property"`
 	Tier        string         `json:"tier"`
 	Seed        uint64         `json:"seed"`
@@ -82,6 +83,15 @@ func (r *Report) Fail(f Failure) {
 	f.Seed = r.Seed
 	if len(r.Failures) < 200 {
 		r.Failures = append(r.Failures, f)
+	}
+	// the first failures are written out at once: a harness that is killed later (a crash of the
+	// real code in a goroutine, the time budget of a search) still leaves its concrete findings
+	if r.AutoPath != "" && len(r.Failures) <= 10 {
+		if b, err := json.MarshalIndent(r, "", " "); err == nil {
+			if os.WriteFile(r.AutoPath+".tmp", b, 0o644) == nil {
+				os.Rename(r.AutoPath+".tmp", r.AutoPath)
+			}
+		}
 	}
 }
 
